@@ -1,5 +1,5 @@
 (* Props/C09.v — property C09: virtual easy samples behave like materialised extreme scores. Statements only. *)
-From SA Require Import Model.Symmetry Model.Auc Proofs.SymmetryFacts Proofs.MaterialiseAucFacts.
+From SA Require Import Model.Symmetry Model.Auc Model.Threshold Proofs.SymmetryFacts Proofs.MaterialiseAucFacts Proofs.MaterialiseThrFacts.
 Open Scope Q_scope.
 
 (* Confusion matrices: for every Scores object with k, m >= 0 easy samples, every configuration and
@@ -28,9 +28,63 @@ Theorem C09_full_auc :
 Proof. exact materialise_full_auc. Qed.
 Print Assumptions C09_full_auc.
 
-(* _partial: equality of PARTIAL AUC and of the thresholds returned for in-range targets between the
-   two objects is not a theorem here; it is checked on the implementation on every run
-   (harness/props/C09.py: a few ulp / 1e-12). *)
+(* Thresholds, _partial (the four class-wise metrics tpr, fnr, tnr, fpr; method linear; any np.nextafter with
+   x < succ x and pred x < x).  [mat_sorted s ppos pneg] is the object in which the easy samples are actual
+   scores, placed beyond the scored samples of their own class on that class's side; for a Scores object
+   satisfying the constructor's invariant it is what the constructor builds ([C09_materialise_sorted]).
+   Whenever the threshold returned for the materialised object lies within the range of the scored samples of
+   the metric's class — strictly so at the end where the materialised samples sit: at that end sample itself
+   the virtual object answers with the sentinel one ulp beyond it, the "few ulp" of the property — the object
+   with virtual easy samples returns the same threshold.  [cls_list] = scored samples of the metric's class,
+   [cls_easy] = its easy count (>= 1 here; = 0 is the next theorem), [high_side] = whether the easy samples of
+   that class lie above its scored samples. *)
+Theorem C09_thresholds_class_metrics_partial :
+  forall (succ pred : Q -> Q), (forall x, x < succ x) -> (forall x, pred x < x) ->
+  forall (s : scores) (ppos pneg : Q) (mt : metric6) (r t' : Q),
+  In mt [MTpr; MFnr; MTnr; MFpr] ->
+  let l := cls_list mt s in let p := cls_point mt ppos pneg in
+  (1 <= len l)%Z -> (1 <= cls_easy mt s)%Z ->
+  (if high_side mt s then nthZ l (len l - 1) < p else p < nthZ l 0) ->
+  threshold_at succ pred mt (mat_sorted s ppos pneg) r Linear = Ret t' ->
+  (if high_side mt s then nthZ l 0 <= t' /\ t' < nthZ l (len l - 1) else nthZ l 0 < t' /\ t' <= nthZ l (len l - 1)) ->
+  exists t, threshold_at succ pred mt s r Linear = Ret t /\ t == t'.
+Proof. exact mat_thresholds_class_metrics. Qed.
+Print Assumptions C09_thresholds_class_metrics_partial.
+
+(* ... and without easy samples of that class the two calls are the same computation, every method *)
+Theorem C09_thresholds_no_easy :
+  forall (succ pred : Q -> Q) (s : scores) (ppos pneg : Q) (mt : metric6) (r : Q) (m : method),
+  In mt [MTpr; MFnr; MTnr; MFpr] -> cls_easy mt s = 0%Z ->
+  threshold_at succ pred mt (mat_sorted s ppos pneg) r m = threshold_at succ pred mt s r m.
+Proof. exact mat_thresholds_no_easy. Qed.
+Print Assumptions C09_thresholds_no_easy.
+
+(* np.sort of the materialised arrays puts the copies where [mat_sorted] has them *)
+Theorem C09_materialise_sorted : forall (s : scores) (ppos pneg : Q),
+  wf s -> beyond_own s ppos pneg -> materialise s ppos pneg = mat_sorted s ppos pneg.
+Proof. exact materialise_is_mat_sorted. Qed.
+Print Assumptions C09_materialise_sorted.
+
+(* _partial: equality of PARTIAL AUC, and of the thresholds for topr / tonr (whose sample sequence interleaves
+   both classes, with materialised samples at both ends), is not a theorem here; it is checked on the
+   implementation on every run (harness/props/C09.py: a few ulp / 1e-12). *)
+
+(* the hypotheses are satisfiable: binary64 neighbours, 2 easy positives, 1 easy negative; all four metrics at
+   targets whose materialised threshold lies inside the scored range *)
+Example C09_thresholds_example :
+  let s := mk_scores [2#1; 3#1; 5#1] [1#1; 2#1; 4#1] 2 1 Pos Neg true in
+  wf s /\ beyond_own s (9#1) (-5#1) /\
+  match threshold_at succ64 pred64 MFnr (materialise s (9#1) (-5#1)) (3#10) Linear with Ret a => Qeqb a (5#2) = true | _ => False end /\
+  match threshold_at succ64 pred64 MFnr s (3#10) Linear with Ret a => Qeqb a (5#2) = true | _ => False end /\
+  (forall mt, In mt [MTpr; MFnr; MTnr; MFpr] ->
+     match threshold_at succ64 pred64 mt (materialise s (9#1) (-5#1)) (1#2) Linear, threshold_at succ64 pred64 mt s (1#2) Linear with
+     | Ret a, Ret b => Qeqb a b = true | _, _ => False end).
+Proof.
+  split; [split; repeat constructor; cbn; discriminate|].
+  split; [split; repeat constructor; reflexivity|].
+  split; [vm_compute; reflexivity|]. split; [vm_compute; reflexivity|].
+  intros mt H. cbn [In] in H. repeat (destruct H as [<-|H]; [vm_compute; reflexivity|]). destruct H.
+Qed.
 
 Example C09_example :
   let s := mk_scores [2#1; 3#1] [1#1; 2#1] 2 1 Pos Pos false in
